@@ -1,7 +1,7 @@
 /-! Factor kinds and the dtype probe rows of the generated kind table (`Gen/KindTable.lean`). -/
 namespace FormulaicVerif.Model
 
-inductive Kind | categorical | numerical | error
+inductive FKind | categorical | numerical | error
 deriving DecidableEq, Repr, Inhabited
 
 /-- what a dtype *is*, independently of the library's classification -/
@@ -11,8 +11,8 @@ deriving DecidableEq, Repr, Inhabited
 structure KindRow where
   dtype : String
   family : DFamily
-  pandasKind : Kind
-  narwhalsKind : Kind
+  pandasKind : FKind
+  narwhalsKind : FKind
 deriving DecidableEq, Repr, Inhabited
 
 end FormulaicVerif.Model
